@@ -212,9 +212,26 @@ class Ctx:
                 if isinstance(e, (KeyboardInterrupt, SystemExit)):
                     raise
 
+    def hyp_parallel(self, factory, body, max_examples, name="hyp", shards=None):
+        """hyp_explore spread over the process pool: `factory` (zero-argument, module-level) builds the strategy inside each
+        shard, `body` (module-level) is the relation; shard i uses seed VERIF_SEED*1000+i, so the whole is a function of the seed."""
+        shards = shards or NPROC
+        per = max(1, max_examples // shards)
+        self.pmap(_hyp_shard, [(self.prop, self.tier, self.seed, i, factory.__module__, factory.__name__, body.__module__,
+                                body.__name__, per, name) for i in range(shards)])
+
     # ----------------------------------------------------------------------------------------------
     def require_classes(self, *names):
         self.required_classes.extend(names)
+
+
+def _hyp_shard(arg):
+    prop, tier, seed, i, fmod, fname, bmod, bname, per, name = arg
+    factory = getattr(importlib.import_module(fmod), fname)
+    body = getattr(importlib.import_module(bmod), bname)
+    sub = Ctx(prop, tier, seed * 1000 + i)
+    sub.hyp_explore(factory(), body, per, name=f"{name}[{i}]", shrink_keys=2)
+    return sub.rec
 
 
 class _ShardError:
